@@ -1,7 +1,7 @@
 (* C05 -- templates that cannot be contextualized never produce output (sticky).
    Only the property theorems; proofs are in proofs/EngineFacts.v.  An exec op of the model answers
    RErrEscape (nothing is written), RExec tid (text/template runs text object tid) or another error. *)
-From V Require Import lib.Base model.TContext model.TTree model.TEscaper model.Engine spec.EngineSpec proofs.EngineFacts proofs.EngineHistFacts proofs.EngineInvFacts.
+From V Require Import lib.Base model.TContext model.TTree model.TEscaper model.Engine spec.EngineSpec proofs.EngineFacts proofs.EngineHistFacts proofs.EngineInvFacts proofs.EnginePermFacts.
 
 (* in EVERY world (reachable or not): once a template carries an analysis error, Execute on it
    returns that error, writes nothing, and the error stays *)
@@ -102,3 +102,16 @@ Theorem C05_sticky_forever_by_name : forall ops0 o code ops h' obj' name,
   snd (step w' (OExecuteTemplate h' name)) = RErrEscape code.
 Proof. exact sticky_forever_by_name_reachable. Qed.
 Print Assumptions C05_sticky_forever_by_name.
+
+(* the property as it reads, for the direct call: in every reachable world, if Execute through a handle answers
+   with an analysis error (it wrote nothing), then after ANY further history of API calls (t.New only for names
+   its set does not define yet) Execute through that handle answers with the same error again *)
+Theorem C05_failure_is_permanent : forall ops0 h o code ops,
+  let w0 := run_from world0 ops0 in
+  handle w0 h = Some o ->
+  snd (step w0 (OExecute h)) = RErrEscape code ->
+  let w := fst (step w0 (OExecute h)) in
+  no_redefine_hist w ops ->
+  snd (step (run_from w ops) (OExecute h)) = RErrEscape code.
+Proof. exact failure_is_permanent. Qed.
+Print Assumptions C05_failure_is_permanent.
